@@ -371,6 +371,52 @@ def c18_4(ck, prog):
                      'capture no longer asks the monitor matchmaker for recipients')
 
 
+def c18_5(ck, prog):
+    r = ck.rule('C18.5', 'a BecomeMonitor that fails leaves no filter behind: on every failing exit of '
+                'bus_connection_be_monitor and of its rule-installing helper, rules already added to the monitor '
+                'matchmaker for this connection have been removed again', 'PAIR',
+                breaks='a client whose BecomeMonitor failed stays an ordinary client but keeps (part of) a '
+                       'monitor filter: once any monitor exists it is sent other clients\' traffic', floor=2)
+    C = 'bus/connection.c'
+    ADD = {'bus_matchmaker_add_rule', 'bcd_add_monitor_rules'}
+    DROP = {'bus_matchmaker_disconnected', 'bcd_drop_monitor_rules'}
+    for name in ('bcd_add_monitor_rules', 'bus_connection_be_monitor'):
+        fn = prog.fn(name, C)
+        adds = {c['id'] for b, i, c in fn.calls() if c.get('callee') in ADD}
+        if not adds:
+            raise AnalysisBroken('%s no longer installs monitor rules' % name)
+
+        def on_event(user, ev, ctx, adds=adds):
+            st = user
+            if isinstance(st, tuple):
+                k = ctx.result_known(st[1])
+                if k is True:
+                    st = 'installed'
+                elif k is False:
+                    st = st[2]
+            if ev['ev'] == 'call':
+                c = ev['e']
+                if c['id'] in adds:
+                    return ('pending', c['id'], st if not isinstance(st, tuple) else 'none')
+                if c.get('callee') in DROP:
+                    return 'none'
+            return st
+
+        def on_exit(user, ctx, ret, ev, fn=fn):
+            st = user
+            if isinstance(st, tuple):
+                k = ctx.result_known(st[1])
+                st = st[2] if k is False else 'installed'
+            if st == 'installed' and ctx.ret_status(ret) == 'fail':
+                ctx.report('%s fails with monitor rules of this connection still installed' % fn.name,
+                           ev['line'] if ev else fn.endline, key=('rules-left', fn.name))
+        ex = Explorer(fn, init='none', on_event=on_event, on_exit=on_exit, calls=ADD, track='auto', cap=400000).run()
+        if ex.reports:
+            r.from_reports(ex.reports, keyfn=lambda k, rep: '%s:%s' % (k[1], k[0]))
+        else:
+            r.ok('%s:failure-leaves-no-rules' % name)
+
+
 def run(ck):
     ck.explanation = (
         'Static must-pass-through / typestate rules over bus/dispatch.c, bus/connection.c, bus/driver.c: every '
@@ -387,3 +433,16 @@ def run(ck):
         c18_2(ck, prog)
         c18_3(ck, prog)
         c18_4(ck, prog)
+        c18_5(ck, prog)
+        # monitor filters are match rules: what a monitor sees is decided by the shared matcher
+        from rules.C07 import c07_1
+        r6 = ck.rule('C18.6', 'monitor filters are evaluated by the match-rule matcher, every key of which is set, '
+                     'matched against the message\'s own attribute, compared and freed consistently (shared with '
+                     'C07.1)', 'TAB', breaks='a monitor with a selective filter misses messages that match it, or '
+                     'receives messages that do not', floor=30)
+        save = ck.rule
+        ck.rule = lambda *a, **k: r6
+        try:
+            c07_1(ck, prog)
+        finally:
+            ck.rule = save
